@@ -59,7 +59,7 @@ func checkC08(e *core.Env) {
 				sc.Ret = Ret{How: "status", Code: statusCodes[rr.Intn(16)], Msg: "final"}
 			case 3:
 				// errors that are not statuses, among them the one that ended the handler's own receive loop
-				sc.Ret = Ret{How: pick(rr, "plain", "eof", "ueof", "canceled", "deadline")}
+				sc.Ret = Ret{How: pick(rr, "plain", "eof", "ueof", "canceled", "deadline", "okcoded"), Msg: "not a status error"}
 			}
 			if nresp >= 2 && rr.Intn(6) == 0 {
 				// a response the transport cannot encode (map key that is not valid UTF-8): whatever the
